@@ -1,7 +1,7 @@
 (* MODELS: tsmem *)
 (* Driver for the extracted pointer-level model Files/TsMem.v (the Touchstone loader's own buffers in the
    checked-memory monad).  One command per line, the format of harness/tstone_mem.c:
-     mts K NAME HEX|-  ->  MEM rc errno | REQ n | FREED ref,text,vv | LIVE n | DEST type rows cols freqs filetype fz0 fprec dprec
+     mts K NAME HEX|-  ->  MEM rc errno | REQ n | FREED ref,text,vv | LIVE n | DEST type rows cols freqs filetype fz0 fprec dprec | ACC 0|1
                            or   FAULT <kind>     (DEST: Files/LoadFail.v, the destination of the harness after the recorded calls)
      mnp K NAME HEX|-  ->  MEM rc errno | REQ n | FREED z0,fields,text | LIVE n   (Files/TsMemNpd.v, variant NFixed)
    K > 0: the K-th request of the parser fails (start (Some (K-1))).  REQ = blocks handed out + the failed request.
@@ -27,15 +27,19 @@ let faultname = function
   | M.IntOverflow -> "IntOverflow" | M.VlaBound -> "VlaBound"
 let name_ft (name : string) : int =
   let n = String.length name in
-  let suf = match String.rindex_opt name '.' with Some i -> String.lowercase_ascii (String.sub name (i + 1) (n - i - 1)) | None -> "" in
+  let suf = match String.rindex_opt name '.' with Some i -> String.sub name (i + 1) (n - i - 1) | None -> "" in
+  let digits s = s <> "" && String.for_all (fun c -> c >= '0' && c <= '9') s in
   if suf = "ts" then 2 else if suf = "npd" then 3
-  else if String.length suf >= 3 && suf.[0] = 's' && suf.[String.length suf - 1] = 'p' then 1 else 0
+  else if String.length suf >= 3 && suf.[0] = 's' && suf.[String.length suf - 1] = 'p'
+          && digits (String.sub suf 1 (String.length suf - 2)) then 1 else 0
 let coqz_of_int (x : int) : M.z = if x = 0 then M.Z0 else if x > 0 then M.Zpos (pos_of_int x) else M.Zneg (pos_of_int (- x))
 let dest_string_of (((((((t, r), c), f), ft), pf), fp), dp) : string =
   Printf.sprintf "DEST %s %d %d %d %s %d %s %s" (ZZ.to_string (z_of_coqz t)) (int_of_nat r) (int_of_nat c) (int_of_nat f)
     (ZZ.to_string (z_of_coqz ft)) (if pf then 1 else 0) (ZZ.to_string (z_of_coqz fp)) (ZZ.to_string (z_of_coqz dp))
-let dest_string (name : string) (calls : M.dop list) : string = dest_string_of (M.ts_digest (coqz_of_int (name_ft name)) calls)
-let ndest_string (name : string) (calls : M.ndop list) : string = dest_string_of (M.npd_digest (coqz_of_int (name_ft name)) calls)
+let dest_string (name : string) (calls : M.dop list) : string =
+  dest_string_of (M.ts_digest (coqz_of_int (name_ft name)) calls) ^ (if M.ts_accepted (coqz_of_int (name_ft name)) calls then " | ACC 1" else " | ACC 0")
+let ndest_string (name : string) (calls : M.ndop list) : string =
+  dest_string_of (M.npd_digest (coqz_of_int (name_ft name)) calls) ^ (if M.npd_accepted (coqz_of_int (name_ft name)) calls then " | ACC 1" else " | ACC 0")
 let eclass = function M.EBADMSG -> "EBADMSG" | M.ENOPROTOOPT -> "ENOPROTOOPT" | M.EINVAL -> "EINVAL" | M.EINTERNAL -> "EINTERNAL"
 
 let () =
